@@ -28,6 +28,7 @@ pub mod corpus;
 pub mod c05;
 pub mod c12;
 pub mod c20;
+pub mod iterlaws;
 
 #[cfg(not(any(miri, verif_no_alloc_monitor)))]
 #[global_allocator]
